@@ -86,8 +86,19 @@ fn with_net<T>(f: impl FnOnce(&mut Net) -> T) -> T {
 
 const BUF: usize = 1 << 24;
 
+static EPOCH: std::sync::OnceLock<std::time::Instant> = std::sync::OnceLock::new();
+
+/// Milliseconds of the calling runtime's tokio clock (virtual when the runtime is paused) since a process-wide epoch.
+/// The synchronizers read the wall clock for their retry timestamps while their retry timers run on the tokio clock;
+/// under `cfg(hotstuff_verif)` both come from the tokio clock so that a harness can drive them together.
+pub fn now_ms() -> u128 {
+    let epoch = *EPOCH.get_or_init(std::time::Instant::now);
+    tokio::time::Instant::now().into_std().saturating_duration_since(epoch).as_millis() + 3_600_000
+}
+
 /// Forget every listener, the switch, the policy and all recorded events.
 pub fn reset() {
+    let _ = EPOCH.get_or_init(std::time::Instant::now);
     let mut g = match NET.lock() {
         Ok(g) => g,
         Err(p) => p.into_inner(),
